@@ -62,8 +62,9 @@ class C07(Check):
                                    {'lens': list(lens), 'K': K}, split=4, robust=True, witness_every=9))
         for S in ([2, 3] if q else [2, 3, 4]):
             cfgs.append(Config('windows_S%d' % S, self.windows, {'S': S, 'Wmax': 3 if q else 4}, split=2))
-        for T in ([2, 3] if q else [2, 3, 4]):
-            cfgs.append(Config('one_series_T%d' % T, self.one_series, {'T': T, 'K': 2}, split=4, robust=True))
+        for (T, W) in ([(2, 1), (3, 1), (2, 2), (2, 3)] if q else [(2, 1), (3, 1), (4, 1), (2, 2), (3, 2), (2, 3), (2, 4)]):
+            cfgs.append(Config('one_series_T%d_W%d' % (T, W), self.one_series, {'T': T, 'K': 2, 'W': W}, split=4,
+                               robust=True))
         return cfgs
 
     def template(self, c, S, Lmax):
@@ -145,11 +146,12 @@ class C07(Check):
                 off += lens[s] - W + 1
         c.prove('no_window_mixes_two_series', conj(f))
 
-    def one_series(self, c, T, K):
+    def one_series(self, c, T, K, W=1):
+        """T stacked windows of width W (the series has T+W-1 rows)."""
         Rp = self.R
-        X = stubs.const_array([[data_pattern(i, 0)] for i in range(T)])
+        X = stubs.const_array([[data_pattern(i, 0)] for i in range(T + W - 1)])
         beta = c.real('b', 0)
-        c.notes.update({'lens': [T], 'K': K, 'T': T, 'one_series': True})
+        c.notes.update({'lens': [T], 'K': K, 'T': T, 'W': W, 'one_series': True})
         ld = logdet.OpaqueLogDet(c)
         seen = []
         real_fit = Rp.main_loop.fit_stacked_data
@@ -160,13 +162,13 @@ class C07(Check):
         out = []
         for which in ('joint', 'single'):
             stubs.install_linalg(det=ld.det, slogdet=ld.slogdet)
-            ml = MainLoop(Rp, c, K, 1, modes={'relabel': 'real', 'point_ll': 'real', 'initial': 'summary'},
+            ml = MainLoop(Rp, c, K, W, modes={'relabel': 'real', 'point_ll': 'real', 'initial': 'summary'},
                           spd='dominant', concrete_mean=mean_pattern)
             ml.s_initial = lambda k, d: [i % K for i in range(len(d))]
             Rp.main_loop.fit_stacked_data = spy
             try:
                 with ml:
-                    kw = dict(window_size=1, num_clusters=K, iteration_limit=1, min_cluster_size=1,
+                    kw = dict(window_size=W, num_clusters=K, iteration_limit=1, min_cluster_size=1,
                               sparsity_weight=0.1, label_switching_cost=beta)
                     if which == 'joint':
                         ok, res = guarded(c, 'joint_of_one_series_equals_single', Rp.front_end.ticc_joint_labels, [X], **kw)
